@@ -22,7 +22,7 @@ def symOf (s : RawSym) : Outcome DSymData := s.toSym
 def handler : Handler := fun op inp out =>
   let bad := ("-", fail "driver-cannot-parse-input")
   match op with
-  | "tor2" =>
+  | "tor2" | "tor2_s" =>
     match run (do let s ← P.rawSym; let e ← P.atEnd; if e then pure s else failure) inp with
     | none => bad
     | some s =>
@@ -35,7 +35,7 @@ def handler : Handler := fun op inp out =>
         match run (do let c ← P.rawSym; let e ← P.atEnd; if e then pure c else failure) out with
         | none => (m, fail "no-symbol-returned")
         | some c => (m, check (clauses2d (specG s) (some (specG c))))
-  | "ptc" | "ptc_corpus" | "ptc_nomodel" =>
+  | "ptc" | "ptc_s" | "ptc_corpus" | "ptc_nomodel" =>
     match run (do let s ← P.rawSym; let e ← P.atEnd; if e then pure s else failure) inp with
     | none => bad
     | some s =>
